@@ -35,6 +35,9 @@ PLAIN = [
     [[["sub", [[["kind", "o"]], [["kind", "-"]]]], ["tag", "#", "t1", False]]],
     [[["desc", "lower case", "'", False, False]]],
     [[["create", ["short", "240101"], ["short", "240131"]]]],
+    # a priority range and a kind: atoms that POOL with their like inside one conjunction
+    [[["prio", 0, 1], ["tag", "#", "t1", False]]],
+    [[["kind", "x~"]]],
     # top-level alternatives that begin and end with a parenthesised group
     [[["sub", [[["kind", "o"], ["tag", "#", "t1", False]]]]], [["sub", [[["kind", "-"], ["tag", "+", "j1", False]]]]]],
 ]
@@ -65,6 +68,8 @@ def clause_options(k: int, quick: bool):
 
 X = ["file", "ab", False]
 Y = ["tag", "@", "c1", True]
+K = ["kind", "o"]
+P = ["prio", 1, 3]
 
 
 def referencing_queries():
@@ -82,6 +87,9 @@ def referencing_queries():
         ("W Y ({a} | X)", None, [[Y, ["sub", [[a], [X]]]]]),
         ("W {a} X | Y {a}", None, [[a, X], [Y, a]]),
         ("W ({a}) ({b}) | {a}", None, [[["sub", [[a]]], ["sub", [[b]]]], [a]]),
+        # a kind / a priority range of the surrounding filter next to the reference
+        ("W K {a}", None, [[K, a]]),
+        ("W {a} P", None, [[a, P]]),
         # the same reference twice: first as a whole alternative, then next to another atom
         ("W {a} | X {a}", None, [[a], [X, a]]),
         ("W ({a} | Y) (X {a} | {b})", None, [[["sub", [[a], [Y]]], ["sub", [[X, a], [b]]]]]),
@@ -100,6 +108,28 @@ def render_with_refs(or_) -> str:
         return " | ".join(" ".join(r_atom(a) for a in and_) for and_ in o)
 
     return r_or(or_)
+
+
+def substitute_textual(or_, env):
+    """What a purely TEXTUAL splice means: a saved clause without alternatives is put into
+    the surrounding conjunction as it is (its kinds / priorities then pool with those of the
+    surrounding filter); only clauses with alternatives are kept together."""
+    out = []
+    for and_ in or_:
+        na = []
+        for a in and_:
+            if a[0] == "ref":
+                clause = substitute_textual(env[a[1]], env)
+                if len(clause) == 1:
+                    na.extend(clause[0])
+                else:
+                    na.append(["sub", clause])
+            elif a[0] == "sub":
+                na.append(["sub", substitute_textual(a[1], env)])
+            else:
+                na.append(a)
+        out.append(na)
+    return out
 
 
 def substitute(or_, env):
@@ -204,9 +234,15 @@ def _run_case(ctx, case) -> F.Outcome:
     if 0 < len(want) < len(U.notes):
         out.nontrivial = H.digest([case[1:]])
     if problem:
-        has_alt = any(len(substitute(env[n], env)) > 1 or _has_top_or(env[n]) for n in NAMES)
         out.ok = False
         out.sig = problem[0] + (":saved-clause-with-alternatives" if _any_alt_reachable(where, env) else "")
+        if problem[0] in ("selected-notes-differ", "count-differs"):
+            # narrow class: the result is exactly what a textual splice means, and it differs
+            # from the intended meaning only because kinds / priorities pooled across the splice
+            textual = sorted(n["zid"] for n in U.notes if Q.holds_or(substitute_textual(where, env), n, U, DAY))
+            same = (sorted(got) == textual) if not select else (str(got).strip() == str(len(textual)))
+            if same and textual != want:
+                out.sig = problem[0] + ":kinds-or-priorities-pool-across-the-splice"
         out.detail = {"saved": {n: wrap(render_with_refs(env[n]), 0) for n in NAMES},
                       "query": qtext, "expanded": exp, "model_query": "W " + Q.render_or(full), **problem[1]}
     return out
